@@ -52,7 +52,7 @@ def cases(draw):
         "level": level,
         "images": images,
         "instant": draw(common.instants()),
-        "enum_cycle": draw(st.integers(0, 11)),
+        "enum_cycle": draw(st.one_of(st.integers(0, 11), st.integers(0, 11), st.none())),  # None: random codes, some outside the tables
         "rpc": draw(st.sampled_from([1, 2, 3, 7, 1024])),
         # the judged tree is the one returned by an open that also writes the index cache
         "create_cache": draw(st.sampled_from([False, False, False, True])),
@@ -72,7 +72,7 @@ def plan(tier):
 
 
 def classify(case):
-    labels = [f"level={case['level']}", f"enum_cycle={case['enum_cycle'] % 6}"]
+    labels = [f"level={case['level']}", f"enum_cycle={case['enum_cycle'] % 6 if case['enum_cycle'] is not None else 'random+unknown'}"]
     if any(im.get("blank_header") for im in case["images"]):
         labels.append("blank-header")
     if case.get("create_cache"):
